@@ -36,9 +36,14 @@ func (ex *Exec) jump(st *State, f *Frame, succIdx int) bool {
 		}
 		f.loops[to.Index]++
 		if f.loops[to.Index] > ex.cfg.Unwind {
-			ex.rep.UnwoundOut++
-			ex.rep.Unknowns = append(ex.rep.Unknowns, "unwinding bound hit at "+ex.site(f))
-			ex.endPath(st, "unwound-out")
+			if ex.pathFeasible(st) {
+				ex.rep.UnwoundOut++
+				ex.rep.Unknowns = append(ex.rep.Unknowns, "unwinding bound hit at "+ex.site(f))
+				ex.endPath(st, "unwound-out")
+			} else {
+				st.ended = true
+				ex.rep.Infeasible++
+			}
 			return false
 		}
 	}
@@ -112,6 +117,25 @@ func (ex *Exec) checkIndex(st *State, idx *Term, n int, what string) ([]*State, 
 		return nil, true
 	}
 	bad := ex.ctx.Not(ex.ctx.Ult(idx, BVC(idx.S.W, uint64(n))))
+	// staged: the bound usually follows from the index term alone or from the most
+	// recent path conditions; only the full query can establish feasibility
+	ex.sol.Purpose = "bounds (staged) at " + ex.site(st.thread().top())
+	if ex.boundOK == nil {
+		ex.boundOK = map[int]bool{}
+	}
+	if ex.boundOK[bad.ID] {
+		return nil, true
+	}
+	if r0, _ := ex.sol.Check([]*Term{bad}, false, nil); r0 == Unsat {
+		ex.boundOK[bad.ID] = true
+		return nil, true
+	}
+	if len(st.pc) > 6 {
+		sub := append(append([]*Term{}, st.pc[len(st.pc)-6:]...), bad)
+		if r1, _ := ex.sol.Check(sub, false, nil); r1 == Unsat {
+			return nil, true
+		}
+	}
 	r, m := ex.feasible(st, bad)
 	var extra []*State
 	if r != Unsat {
@@ -498,8 +522,25 @@ func (ex *Exec) doIf(st *State, th *Thread, f *Frame, x *ssa.If) []*State {
 		return nil
 	}
 	ncond := ex.ctx.Not(cond)
-	rT, mT := ex.feasible(st, cond)
-	rF, mF := ex.feasible(st, ncond)
+	var rT, rF Res
+	var mT, mF Model
+	lazy := ex.cfg.LazyIf && ex.cfg.MergeIfs && len(st.threads) == 1 && (f.info.ipdom[f.block.Index] >= 0 || ex.depth > 0) && !(f.info.loopExit[f.block.Index] && f.loops[f.block.Index] >= 66) && !ex.isNoMerge(f.fn)
+	if lazy {
+		// both arms are explored and merged at the join; infeasible arms only
+		// contribute dead ite branches (assertions/panics re-check the pc)
+		rT, rF = Sat, Sat
+		if ok, have := ex.modelHolds(st, cond); have {
+			if ok {
+				mT = st.model
+			} else {
+				mF = st.model
+			}
+		}
+		ex.rep.LazyForks++
+	} else {
+		rT, mT = ex.feasible(st, cond)
+		rF, mF = ex.feasible(st, ncond)
+	}
 	if rT == Unknown || rF == Unknown {
 		ex.rep.Unknowns = append(ex.rep.Unknowns, "branch feasibility undecided at "+ex.site(f))
 	}
